@@ -356,6 +356,25 @@ def r4(ctx):
     ext = [bi for bi, t in b.calls(r"Extend::extend$") if "std::vec::Vec<std::string::String>" in t.get("resolved_full", "")]
     if cq and ext and any(b.reachable(cq[0][0], e) for e in ext):
         probs.append("the URI's query is rendered before the merge is complete")
+    # between the canonical query / path and Uri::builder nothing but concatenation: the query the caller gets back is
+    # the authenticated one byte for byte (un-escaping `%2B` to `+` "because RFC 3986 allows it" hands back a space)
+    # (forward from the rendered query: every call it, or something derived from it, is handed to before the URI is built)
+    OKC = r"String::(push|push_str|with_capacity|new|len|is_empty|as_str|reserve|clone)$|str>::(len|is_empty)$|Clone::clone$|ToString::to_string$|to_owned$|ToOwned::to_owned$|Deref::deref$|AsRef::as_ref$|Borrow::borrow$|convert::(From|Into|TryFrom|TryInto)::\w+$|http::uri::Builder::\w+$|Result::<T, E>::map_err$|ops::Try::branch$|FromResidual::from_residual$|fmt::|format$|Arguments|must_use$|ops::Add::add$|ops::AddAssign::add_assign$|log::|mem::drop$|drop_in_place"
+    alt = []
+    if cq:
+        tainted = forward_taint(b, seed_locals=[cq[0][1]["dest"]["local"]], int_barrier=True)
+        for kind_, bi_, det_ in tainted_uses(b, tainted):
+            if kind_ != "call":
+                continue
+            t_, idx_ = det_
+            if t_ is cq[0][1] or not b.reachable(cq[0][0], bi_) or not (b.reachable(bi_, u["block"]) or bi_ == u["block"]):
+                continue
+            if re.search(OKC, t_.get("callee", "")) or in_macro(b, bi_, ("log!", "trace!", "debug!", "format!", "format_args!")):
+                continue
+            alt.append(t_["callee"].split("::")[-1])
+        alt = sorted(set(alt))
+    if alt and not probs:
+        probs.append("the canonical query / path is transformed again before it becomes the returned URI (through %s)" % alt)
     if probs:
         yield VIOL("C12-R4", "from_request_parts/rebuilt-uri", "; ".join(probs), where=loc(u["stmt"]["span"]))
     else:
@@ -406,6 +425,19 @@ def r5(ctx):
             yield VIOL("C12-R5", "from_request_parts/decoder-input-whole", "the decoder is applied to a part of the body only (through %s): bytes of the last/first parameter are dropped before folding" % sorted(set(part)), where=b.span_of_block(dec[0]))
         else:
             yield PASS("C12-R5", "from_request_parts/decoder-input-whole", "decode(&body as a whole)", [site(b, dec[0], "decode")])
+    # ... and what the decoder returns is parsed as it is: nothing trims, cuts or replaces the decoded text before it is
+    # split into parameters (`Marker=abc\n` is the value `abc%0A`, like in a URL)
+    qs_ = [x for x in b.calls(r"canonical::query_string_to_normalized_map$") if b.dominates(dec[0], x[0]) and b.slice_op(x[1]["args"][0]).has_call(r"encoding::Encoding::decode$")]
+    if len(qs_) == 1:
+        from c02 import PARTIAL
+        direct_ = b.slice_op(qs_[0][1]["args"][0], stop_at_calls=lambda t_: bool(re.search(r"encoding::Encoding::decode$", t_.get("callee", ""))))
+        part_ = [c_ for c_ in direct_.callee_names() if re.search(PARTIAL, c_) or re.search(r"unescape_uri_encoding$|percent_decode\w*$|lines$|concat$|join$", c_)] + [t_["callee"] for _, t_ in direct_.calls if re.search(r"ops::Index(Mut)?::index(_mut)?$", t_["callee"]) and "Range" in t_.get("resolved_full", "")]
+        if part_:
+            yield VIOL("C12-R5", "from_request_parts/parse-input-whole", "the decoded form body is altered before it is split into parameters (through %s): body bytes are dropped from, or changed in, the folded query" % sorted(set(x.split("::")[-1] for x in part_)), where=b.span_of_block(qs_[0][0]))
+        else:
+            yield PASS("C12-R5", "from_request_parts/parse-input-whole", "query_string_to_normalized_map(decoded body as a whole)", [site(b, qs_[0][0], "query_string_to_normalized_map")])
+    else:
+        yield MISSING("C12-R5", "from_request_parts/parse-input-whole", "parse of the decoded form body not found (%d candidates)" % len(qs_))
     # Err edge of decode -> InvalidBodyEncoding ; None of encoding_from_whatwg_label -> InvalidBodyEncoding
     kinds = {}
     for eb, i, s in err_sites(b):
